@@ -860,6 +860,66 @@ pub fn gen_near_miss(rng: &mut Rng) -> Case {
     }
 }
 
+/// characters whose kind (word / non-word / white space) differs from the kind of the character they normalize to, e.g. the
+/// letter U+01C3 with the image `!`: code that derives a property of the haystack position from the needle character goes
+/// wrong exactly there
+fn class_changers() -> &'static [(char, char)] {
+    static LIST: std::sync::OnceLock<Vec<(char, char)>> = std::sync::OnceLock::new();
+    LIST.get_or_init(|| {
+        let kind = |c: char| if c.is_alphanumeric() { 0 } else if c.is_whitespace() { 1 } else { 2 };
+        (0x80u32..0x3000)
+            .filter_map(char::from_u32)
+            .filter_map(|c| {
+                let img = nucleo_matcher::chars::normalize(c);
+                (img != c && img.is_ascii() && kind(img) != kind(c)).then_some((c, img))
+            })
+            .collect()
+    })
+}
+
+/// several occurrences of a short needle whose first character is such an image; the occurrences start with the image, with a
+/// pre-image of another kind, or with a pre-image of the same kind, after different predecessors
+pub fn gen_class_changer(rng: &mut Rng) -> Case {
+    let mut cfg = gen_cfg(rng, false);
+    if !rng.chance(1, 5) {
+        cfg.normalize = true;
+    }
+    let list = class_changers();
+    let (pre, img) = if list.is_empty() { ('\u{1c3}', '!') } else { *rng.pick(list) };
+    let same_kind: Vec<char> = (0x80u32..0x250).filter_map(char::from_u32).filter(|&c| c != pre && nucleo_matcher::chars::normalize(c) == img).collect();
+    let k = rng.below(4);
+    let suffix = gen_text(rng, &['x', 'a', '1', 'X'], k);
+    let mut needle = vec![img];
+    needle.extend(suffix.iter());
+    let mut hay: Vec<char> = Vec::new();
+    for _ in 0..rng.range(2, 4) {
+        match rng.below(7) {
+            0 => {}
+            1 => hay.push(' '),
+            2 => hay.push('/'),
+            3 => hay.push('q'),
+            4 => hay.push('Q'),
+            5 => hay.push('1'),
+            _ => hay.push('-'),
+        }
+        hay.push(match rng.below(5) {
+            0 | 1 => pre,
+            2 if !same_kind.is_empty() => *rng.pick(&same_kind),
+            _ => img,
+        });
+        hay.extend(suffix.iter());
+        let f = rng.below(3);
+        hay.extend(gen_text(rng, &['q', ' ', 'w'], f));
+    }
+    normalize_needle(&mut needle, &cfg);
+    Case {
+        hay: Text::new(hay),
+        needle: Text::new(needle),
+        cfg,
+        profile: "class-changing-image",
+    }
+}
+
 /// a contiguous match long enough to saturate the 16 bit score, then one gap of 1..40 characters right before the last
 /// needle character(s): whatever happens to the score after saturation shows here
 pub fn gen_saturated_tail(rng: &mut Rng) -> Case {
@@ -902,6 +962,8 @@ pub fn gen_case_for(idx: u64, rng: &mut Rng, pools: &Pools, props: &Props, long_
         1 if idx % 256 == 1 => gen_big(rng, pools, true),
         1 if idx % 256 == 129 => gen_saturated_tail(rng),
         2..=9 if !score_only => gen_placed(rng, pools),
+        35 if anchored_heavy => gen_class_changer(rng),
+        17 => gen_class_changer(rng),
         36..=38 if anchored_heavy => gen_near_miss(rng),
         39..=40 if anchored_heavy => gen_self_overlap(rng),
         19 => gen_self_overlap(rng),
